@@ -1,5 +1,5 @@
-"""Tiny affine evaluator over straight-line MIR: locals -> {symbol: coeff, 1: const}.  Saturating / checked / wrapping
-subtraction and addition are treated as exact (the rule states the regime in which that holds)."""
+"""Tiny affine evaluator over straight-line MIR: locals -> {symbol: coeff, 1: const}.  min / max / saturating_sub are resolved
+when the regime (a cone: by default cur >= L >= 1) decides which side they take; otherwise the local has no value (undecided)."""
 
 
 def add(a, b, sign=1):
@@ -15,6 +15,33 @@ def const(n):
 
 def sym(name):
     return {name: 1}
+
+
+def bounds(g, vertex=None, rays=None):
+    """(min, max) of the affine form g over the regime cone  {vertex + sum t_i * ray_i, t_i >= 0}; None = unbounded.
+    Default regime: cur >= L >= 1  (vertex cur = L = 1; rays: cur grows alone, cur and L grow together)."""
+    vertex = vertex or {"cur": 1, "L": 1}
+    rays = rays or [{"cur": 1, "L": 0}, {"cur": 1, "L": 1}]
+    if any(k not in (1, "cur", "L") for k in g):
+        return None, None
+    at = g.get(1, 0) + sum(g.get(k, 0) * v for k, v in vertex.items())
+    slopes = [sum(g.get(k, 0) * v for k, v in r.items()) for r in rays]
+    lo = at if all(x >= 0 for x in slopes) else None
+    hi = at if all(x <= 0 for x in slopes) else None
+    return lo, hi
+
+
+def pick(a, b, kind):
+    """min / max / saturating difference of two affine forms, when the regime decides it; else None"""
+    d = add(a, b, -1)
+    lo, hi = bounds(d)
+    if kind == "min":
+        return a if (hi is not None and hi <= 0) else (b if (lo is not None and lo >= 0) else None)
+    if kind == "max":
+        return b if (hi is not None and hi <= 0) else (a if (lo is not None and lo >= 0) else None)
+    if kind == "satsub":
+        return d if (lo is not None and lo >= 0) else ({} if (hi is not None and hi <= 0) else None)
+    return None
 
 
 ARITH = {"saturating_sub": -1, "wrapping_sub": -1, "checked_sub": -1, "sub": -1, "saturating_add": 1, "wrapping_add": 1, "checked_add": 1, "add": 1}
@@ -77,7 +104,14 @@ def evaluate(f, seeds, call_syms):
             if v is None and c.name in ARITH and len(c.args) == 2:
                 a, b = opval(c.args[0]), opval(c.args[1])
                 if a is not None and b is not None:
-                    v = add(a, b, ARITH[c.name])
+                    if c.name == "saturating_sub":
+                        v = pick(a, b, "satsub")
+                    else:
+                        v = add(a, b, ARITH[c.name])
+            if v is None and c.name in ("min", "max") and len(c.args) == 2:
+                a, b = opval(c.args[0]), opval(c.args[1])
+                if a is not None and b is not None:
+                    v = pick(a, b, c.name)
             if v is None and c.name in ("as_u64", "into", "from", "clone", "min", "max") and len(c.args) == 1:
                 v = opval(c.args[0])
             if v is not None:
